@@ -258,6 +258,10 @@ class World:
         self.umat_wrap = umat_wrap
         for k, it in enumerate(doc["items"]):
             self.items.append(self._build_item(k, it))
+        if any(it.get("free_centerpoint") for it in doc["items"]):
+            # documented pattern: the centre point of a multi-point constraint is taken off the list of
+            # points without cells, its unknowns are then free (held by the constraint only)
+            self.mesh.points_without_cells = self.mesh.points_without_cells[:-1]
         self.top = None
         self.boundaries, self.ramp_bc = self._build_bc(doc.get("bc", {"case": "none"}))
         self.steps = []
@@ -587,7 +591,13 @@ class World:
             bounds = self.boundaries
         else:
             bounds = {k: self.boundaries[k] for k in bnames}
-        return fem.Step(items=items, ramp=ramp if ramp else None, boundaries=bounds)
+        if ramp and pick(self.seed, "shared-ramp-dict", 3) == 0:
+            # the caller builds all its steps from ONE dictionary object that it refills in between
+            shared = self.__dict__.setdefault("_shared_ramp", {})
+            shared.clear()
+            shared.update(ramp)
+            ramp = shared
+        return api("Step", fem.Step, self.seed, items, ramp=ramp if ramp else None, boundaries=bounds)
 
     def apply_ramp(self, step_index, substep):
         """Put ramped boundaries and items of step `step_index` at `substep` (for forks)."""
@@ -682,6 +692,20 @@ def ref_jac_items(world, items, parallel=False):
         K = item.assemble.matrix(**kw).toarray()
         m = world.multiplier_of(item)
         out[: K.shape[0], : K.shape[1]] += m * K
+    return out
+
+
+def expected_dof0(world, step_index):
+    """Independent model of the prescribed set: unknowns selected by the step's boundaries plus, per
+    field, all unknowns of the points the mesh lists as points without cells (the caller may have
+    edited that list)."""
+    out = set(expected_prescribed(world, step_index).keys())
+    off = 0
+    for f in world.field.fields:
+        for p in np.asarray(f.region.mesh.points_without_cells, dtype=int).ravel():
+            for c in range(f.dim):
+                out.add(off + f.dim * int(p) + c)
+        off += f.values.size
     return out
 
 
